@@ -158,6 +158,7 @@ func propCfg(prop string) genCfg {
 		base.flags = []string{"snapEach", "leakCheck"}
 		base.snapW = 25
 		base.kids = 0.3
+		base.faults = "io-light"
 		base.partial = 0.15
 		base.concerns = []int{0, 1, 2, 2}
 		base.reopen = 2
@@ -242,6 +243,9 @@ func genOpts(r *simrt.Rand, cfg genCfg) Opts {
 		o.NaiveSeekMax = pick(r, []int{1, 3, 100})
 	}
 	o.SkipStats = r.Chance(0.2)
+	if o.Backing == "mapll" {
+		o.NoLLInit = r.Chance(0.4)
+	}
 	return o
 }
 
@@ -492,6 +496,14 @@ func genSingle(c *Case, r *simrt.Rand, cfg genCfg) {
 			big.Ops = append(big.Ops, KV{Op: "set", K: k, V: v})
 		}
 		c.Prog = append(c.Prog, Op{Kind: "batch", B: big}, Op{Kind: "drain"})
+	}
+	if cfg.faults == "io-light" && store && r.Chance(0.3) {
+		// one or two transient write / sync failures somewhere in the run: the
+		// round fails, is retried and succeeds; everything else stays as it is
+		nf := 1 + r.Intn(2)
+		for i := 0; i < nf; i++ {
+			c.Faults = append(c.Faults, Fault{At: r.Intn(70), Kind: pick(r, []string{"write-eio", "write-short", "sync-eio", "sync-eio"}), Count: pick(r, []int{1, 1, 2}), Frac: r.Intn(1000)})
+		}
 	}
 	n := 4 + r.Intn(cfg.maxOps)
 	type w struct {
